@@ -155,9 +155,10 @@ func (n *Net) dial(network, address string, timeout time.Duration) (net.Conn, er
 		s.Kick()
 	} else if n.OnConnect != nil {
 		n.OnConnect(address, srv)
-	} else {
+	} else if n.Policy == nil {
 		return nil, errRefused
 	}
+	// (a Policy that accepts without a listener: the peer end is simply never served)
 	return c, nil
 }
 
